@@ -1,6 +1,7 @@
 package main
 
 import (
+	"sort"
 	"unsafe"
 
 	"golang.org/x/sys/unix"
@@ -83,6 +84,7 @@ func hostileExec(c *Ctx, op string) {
 		sid = api.WareID{Type: "tar", Hash: "3vuuiiEUjwwYaRFuLUXh9Sb3DkTFP4RCnCmRmdEDBT3GZ9mP5ShzmUgGm4hgYEUDjb"}
 	}
 	before, _ := Snapshot(sandbox)
+	xBefore := xattrListing(sandbox, target)
 	var res string
 	uf := api.MustParseFilesetUnpackFilter(losslessUnpackStr)
 	if mode == "zip" {
@@ -219,10 +221,47 @@ func hostileExec(c *Ctx, op string) {
 	if d := DiffFilesets(outside(before), outside(after), true); d != "" {
 		c.PropFail("escape", "unpack changed something outside the target: "+d, op)
 	}
+	if xAfter := xattrListing(sandbox, target); xAfter != xBefore {
+		c.PropFail("escape", "unpack changed extended attributes of an object outside the target: "+firstDiff(xBefore, xAfter), op)
+	}
 	// a successful unpack of an archive with a climbing / absolute / through-link entry is a violation too
 	c.H("mode:" + mode + ":" + strings.Fields(res)[0])
 	c.EmitR(op, "skip", "skip")
 	c.Distinct(op)
+}
+
+// xattrListing: "path: key=value ..." for every object under root that is not inside `skip` (no link is followed).
+func xattrListing(root, skip string) string {
+	var sb strings.Builder
+	filepath.Walk(root, func(p string, fi os.FileInfo, err error) error {
+		if err != nil {
+			return nil
+		}
+		if p == skip && fi.IsDir() {
+			return filepath.SkipDir
+		}
+		if p == skip {
+			return nil
+		}
+		buf := make([]byte, 4096)
+		n, e := unix.Llistxattr(p, buf)
+		if e != nil || n <= 0 {
+			return nil
+		}
+		var keys []string
+		for _, k := range strings.Split(strings.TrimRight(string(buf[:n]), "\x00"), "\x00") {
+			v := make([]byte, 1024)
+			m, _ := unix.Lgetxattr(p, k, v)
+			if m < 0 {
+				m = 0
+			}
+			keys = append(keys, k+"="+hx(string(v[:m])))
+		}
+		sort.Strings(keys)
+		sb.WriteString(p + ": " + strings.Join(keys, " ") + "\n")
+		return nil
+	})
+	return sb.String()
 }
 
 func lastLine(s string) string {
@@ -251,6 +290,9 @@ func (c *Ctx) hostileHdrs() []RawHdr {
 			nm = "./" + nm + "/"
 		}
 		h := RawHdr{Name: nm, Mode: int64([]int{0644, 0755, 04755, 06777, 0}[c.Intn(5)]), Uid: []int{0, 0, 1234}[c.Intn(3)], Gid: []int{0, 5678}[c.Intn(2)], Sec: 1e9}
+		if c.Chance(1, 5) {
+			h.Xattrs = map[string]string{"user.h": "x"}
+		}
 		switch c.Intn(7) {
 		case 0, 1:
 			h.Typeflag = '2'
@@ -307,6 +349,12 @@ func hostileEngine(c *Ctx) {
 		{dir("./"), lnk("a", "b", 0777, 0), lnk("b", "@V@", 0777, 0), file("a/pwned")},
 		{dir("./"), RawHdr{Name: "hl", Typeflag: '1', Link: "@V@/passwd"}},
 		{lnk("x/..", "@V@", 0777, 0), file("pwned")},
+		// entries that carry extended attributes: on a link to the outside, on the root link, on a file reached through a link
+		{dir("./"), RawHdr{Name: "l", Typeflag: '2', Link: "@V@/passwd", Mode: 0777, Sec: 1e9, Xattrs: map[string]string{"user.pwned": "1"}}},
+		{dir("./"), RawHdr{Name: "l", Typeflag: '2', Link: "../victim/dir", Mode: 0777, Sec: 1e9, Xattrs: map[string]string{"user.pwned": "1", "trusted.overlay.opaque": "y"}}},
+		{RawHdr{Name: ".", Typeflag: '2', Link: "@V@", Mode: 0777, Sec: 1e9, Xattrs: map[string]string{"user.root": "r"}}},
+		{dir("./"), RawHdr{Name: "prefile", Typeflag: '0', Mode: 0644, Sec: 1e9, Content: []byte("P"), Xattrs: map[string]string{"user.pwned": "2"}}},
+		{dir("./"), RawHdr{Name: "d/", Typeflag: '5', Mode: 0755, Sec: 1e9}, RawHdr{Name: "d/hard", Typeflag: '0', Mode: 0644, Sec: 1e9, Content: []byte("P"), Xattrs: map[string]string{"user.pwned": "3"}}},
 	}
 	// wares whose root is a special file, a plain file or a directory, placed onto a target path that is a symlink to the outside
 	for _, hs := range [][]RawHdr{{{Name: ".", Typeflag: '6', Mode: 0644, Sec: 1e9}}, {{Name: ".", Typeflag: '3', Mode: 0600, Maj: 1, Min: 3, Sec: 1e9}}, {file(".")}, {dir("./"), file("x")},
